@@ -144,6 +144,7 @@ type verifC02World struct {
 	order       int
 	allowCancel bool
 	cf          verifC02Conf
+	noWire      bool // do not serialise requests (symbolic sequence numbers)
 	injected    bool // the broker answered an OUT_OF_ORDER_SEQUENCE_NUMBER of its own
 	idFatal     bool // the producer id failed fatally and the drain failed everything buffered
 	cancel      context.CancelFunc
@@ -309,7 +310,17 @@ func (w *verifC02World) drain(written bool) bool {
 	p.gb = w.byB[sb.recBatch]
 	p.stagedSeq = sb.seq
 	verifAssert(p.gb != nil, "a staged batch is one of the partition's batches")
-	if written {
+	if written && w.noWire {
+		// symbolic-sequence runs: what AppendTo does to the batch, without serialising
+		sb.mu.Lock()
+		if sb.records != nil && !sb.isFailingFromLoadErr {
+			sb.canFailFromLoadErrs = false
+			p.hasRecs = true
+			p.pid, p.epoch, p.first, p.n = id, epoch, sb.seq, int32(len(sb.records))
+			p.gb.open = true
+		}
+		sb.mu.Unlock()
+	} else if written {
 		p.decode(req.AppendTo(nil))
 		if p.hasRecs {
 			verifAssert(p.pid == id && p.epoch == epoch, "wire batch carries the request's producer id and epoch")
@@ -598,6 +609,11 @@ const (
 func verifC02Run(k int, sizes []int, fresh bool, cf verifC02Conf) {
 	w := verifC02Build(sizes, fresh, cf)
 	w.checkI2()
+	w.run(k)
+}
+
+func (w *verifC02World) run(k int) {
+	cf := w.cf
 	fired := false
 	for step := 0; step < k; step++ {
 		head := w.head()
@@ -647,7 +663,7 @@ func VerifC02_cosim() {
 	}
 	shapes := [][]int{{2}, {2, 1}, {2, 1, 2}}
 	if verifThorough() {
-		shapes = [][]int{{1}, {2}, {1, 1}, {2, 1}, {1, 2}, {2, 2}, {2, 1, 2}, {1, 2, 1}, {1, 1, 1}}
+		shapes = [][]int{{2}, {2, 1}, {1, 2}, {2, 1, 2}}
 	}
 	confs := []verifC02Conf{
 		{trig: verifC02TrigNone},
@@ -670,4 +686,34 @@ func VerifC02_cosim() {
 	fresh := verifChoose(2) == 0
 	cf := confs[verifChoose(len(confs))]
 	verifC02Run(k, sizes, fresh, cf)
+}
+
+// VerifC02_symbolicSeq: the same machine from every 31-bit first sequence number. The
+// partition starts mid-stream at a symbolic batch0Seq with d batches already pipelined, then
+// takes free steps; the ghost broker compares sequence numbers symbolically, so the
+// client/broker agreement (including the wrap at 2^31) is proved for all values.
+func VerifC02_symbolicSeq() {
+	k := 1
+	shapes := [][]int{{2}, {2, 1}, {2, 1, 2}}
+	if verifThorough() {
+		k = 2
+		shapes = [][]int{{1}, {2}, {1, 1}, {2, 1}, {1, 2}, {2, 2}, {2, 1, 2}, {1, 2, 1}}
+	}
+	confs := []verifC02Conf{{trig: verifC02TrigNone}, {trig: verifC02TrigRetries}, {trig: verifC02TrigNone, inject: true}}
+	sizes := shapes[verifChoose(len(shapes))]
+	cf := confs[verifChoose(len(confs))]
+	w := verifC02Build(sizes, false, cf)
+	w.noWire = true
+	s0 := verifNondetInt32("batch0Seq")
+	verifAssume(s0 >= 0)
+	w.rb.batch0Seq, w.rb.seq, w.g.nextSeq = s0, s0, s0
+	d := verifChoose(len(sizes) + 1)
+	for i := 0; i < d; i++ {
+		if !w.drain(true) {
+			verifAssume(false)
+		}
+	}
+	verifAssert(w.rb.batchDrainIdx == d, "pipelined prefix drained d batches")
+	w.checkI2()
+	w.run(k)
 }
